@@ -49,7 +49,82 @@ def _worker_init():
     faulthandler.enable()
 
 
-def _work(spec: dict, prop: str, tier: str, verif_seed: int, start: int, count: int, max_viol: int = 3):
+def forked(fn, *args, timeout: float = 900.0):
+    """Run fn(*args) in a forked child and return its (pickled) result: library-global state touched by the run dies with
+    the child, so every batch / replay / minimisation trial starts from the same pristine process state."""
+    import pickle
+    import select
+
+    r, w = os.pipe()
+    pid = os.fork()
+    if pid == 0:
+        code = 0
+        try:
+            os.close(r)
+            try:
+                out = ("ok", fn(*args))
+            except BaseException as e:  # noqa: BLE001 - reported to the parent
+                import traceback
+
+                out = ("err", f"{type(e).__name__}: {e}\n{traceback.format_exc()[-1200:]}")
+            data = pickle.dumps(out)
+            with os.fdopen(w, "wb") as fh:
+                fh.write(data)
+        except BaseException:
+            code = 3
+        finally:
+            os._exit(code)
+    os.close(w)
+    chunks = []
+    deadline = time.time() + timeout
+    with os.fdopen(r, "rb") as fh:
+        while True:
+            left = deadline - time.time()
+            if left <= 0 or not select.select([fh], [], [], left)[0]:
+                try:
+                    os.kill(pid, 9)
+                except OSError:
+                    pass
+                os.waitpid(pid, 0)
+                raise core.HarnessError(f"forked run exceeded {timeout}s")
+            b = fh.read1(1 << 20)
+            if not b:
+                break
+            chunks.append(b)
+    os.waitpid(pid, 0)
+    if not chunks:
+        raise core.HarnessError("forked run died without a result")
+    kind, val = pickle.loads(b"".join(chunks))
+    if kind == "err":
+        raise core.HarnessError("forked run raised " + val)
+    return val
+
+
+def _work(spec, prop, tier, verif_seed, start, count, max_viol: int = 3):
+    """One batch, run in a forked child of the worker: batches are hermetic with respect to process-global library state."""
+    E = engine_for(spec["engine"])
+    if hasattr(E, "warm_process"):
+        E.warm_process()  # lazy compilation / imports happen once in the long-lived worker, children inherit them
+    return forked(_work_inner, spec, prop, tier, verif_seed, start, count, max_viol, timeout=3600.0)
+
+
+def _case_for(E, spec, prop, tier, verif_seed, i):
+    seed = run_seed(prop, tier, verif_seed, i)
+    if getattr(E, "INDEXED", False):
+        return seed, E.gen_case(seed, prop, tier, index=i, verif_seed=verif_seed)
+    return seed, E.gen_case(seed, prop, tier, **spec.get("gen_kw", {}))
+
+
+def run_sequence(engine_name: str, cases: list):
+    """Run cases one after the other in this process; returns the result of the last one."""
+    E = engine_for(engine_name)
+    res = None
+    for c in cases:
+        res = E.run_case(c)
+    return res
+
+
+def _work_inner(spec: dict, prop: str, tier: str, verif_seed: int, start: int, count: int, max_viol: int = 3):
     E = engine_for(spec["engine"])
     agg = {
         "runs": 0, "steps": 0, "probes": Counter(), "faults": Counter(), "keys": set(), "ntkeys": set(),
@@ -88,7 +163,7 @@ def _work(spec: dict, prop: str, tier: str, verif_seed: int, start: int, count: 
         if len(agg["samples"]) < 2 and (i % 97 == 0 or i == start):
             agg["samples"].append(_sample(case))
         if res.violation is not None and len(agg["violations"]) < max_viol:
-            agg["violations"].append((i, seed, case, res.violation.to_json()))
+            agg["violations"].append((i, seed, case, res.violation.to_json(), (start, i)))
     return agg
 
 
@@ -140,17 +215,23 @@ def match_known(prop: str, sig: dict, known: list):
 # ---------------------------------------------------------------------------------------------------------
 
 
-def replay_case(case: dict):
+def replay_case(case: dict, prelude: list | None = None):
     E = engine_for(case["engine"])
+    for c in prelude or []:
+        E.run_case(c)  # earlier runs in the same process whose left-over state the violation depends on
     return E.run_case(case)
 
 
-def write_replay(prop, seed, case, viol, digest) -> str:
+def write_replay(prop, seed, case, viol, digest, prelude=None) -> str:
     os.makedirs(REPLAYS, exist_ok=True)
     klass = "".join(c if c.isalnum() else "_" for c in viol["class"])[:40]
     path = os.path.join(REPLAYS, f"{prop}-{seed}-{klass}.json")
     doc = {"property": prop, "run_seed": seed, "case": case, "violation": viol, "eventlog_sha256": digest,
            "process": {"PYTHONHASHSEED": "0"}, "repo_rev": repo_rev()}
+    if prelude:
+        doc["prelude"] = prelude
+        doc["prelude_note"] = ("the violation depends on state left in the process by the earlier runs listed in 'prelude' "
+                               "(run in this order in one fresh interpreter, then 'case')")
     with open(path, "w") as fh:
         fh.write(core.dumps(doc))
     return path
@@ -206,13 +287,13 @@ def campaign(prop: str, tier: str, verif_seed: int, spec: dict, workers: int | N
                 if fn.endswith(".json"):
                     doc = core.from_jsonable(json.load(open(os.path.join(cdir, fn))))
                     try:
-                        res = replay_case(doc["case"])
+                        res = forked(replay_case, doc["case"], doc.get("prelude"))
                     except Exception as e:
                         tot["errors"].append((fn, 0, f"corpus replay failed: {e!r}"))
                         continue
                     corpus_results.append((fn, res.violation.klass if res.violation else None))
                     if res.violation is not None:
-                        tot["violations"].append((-1, doc.get("run_seed", 0), doc["case"], res.violation.to_json()))
+                        tot["violations"].append((-1, doc.get("run_seed", 0), doc["case"], res.violation.to_json(), None))
 
     if hasattr(E, "preload"):
         E.preload()  # loaded before the fork so that workers share the pages
@@ -268,7 +349,9 @@ def campaign(prop: str, tier: str, verif_seed: int, spec: dict, workers: int | N
     new_by_class = {}
     known_hits = Counter()
     known_text = {}
-    for i, seed, case, viol in sorted(tot["violations"], key=lambda t: (t[0], t[1])):
+    for rec in sorted(tot["violations"], key=lambda t: (t[0], t[1])):
+        i, seed, case, viol = rec[:4]
+        span = rec[4] if len(rec) > 4 else None
         k = match_known(prop, viol.get("sig", {}), known)
         if k is not None:
             known_hits[k["id"]] += 1
@@ -276,36 +359,81 @@ def campaign(prop: str, tier: str, verif_seed: int, spec: dict, workers: int | N
             continue
         ck = (viol["class"], json.dumps(viol.get("sig", {}), sort_keys=True))
         if ck not in new_by_class:
-            new_by_class[ck] = (i, seed, case, viol)
+            new_by_class[ck] = (i, seed, case, viol, span)
     exit_code = 0
     reported = []
     if len(new_by_class) > 4:
         print(f"# {len(new_by_class)} distinct violation signatures; minimising and reporting the first 4. All signatures:", flush=True)
-        for (klass, sg), (i, seed, case, viol) in list(new_by_class.items())[:40]:
+        for (klass, sg), (i, seed, case, viol, span) in list(new_by_class.items())[:40]:
             print(f"#   {klass} {sg[:160]} :: {viol['detail'][:140]}", flush=True)
-    for (klass, _), (i, seed, case, viol) in list(new_by_class.items())[:4]:
+    ename = spec["engine"]
+
+    def run1(c):  # every trial in a forked child: pristine library state, parent never contaminated
+        return forked(run_sequence, ename, [c])
+
+    for (klass, _), (i, seed, case, viol, span) in list(new_by_class.items())[:4]:
+        prelude = None
         try:
-            mcase = shrink.minimise(E.run_case, case, klass, getattr(E, "SHRINK_LISTS", []), getattr(E, "simplify", None),
-                                    budget_s=spec.get("shrink_s", 25))
-            res = E.run_case(mcase)
-            if res.violation is None or res.violation.klass != klass:
-                mcase, res = case, E.run_case(case)
-        except Exception:
-            mcase, res = case, E.run_case(case)
-        if res.violation is None:
-            tot["errors"].append((i, seed, f"violation {klass} did not reproduce in-process (determinism defect)"))
+            res = run1(case)
+        except core.HarnessError as e:
+            tot["errors"].append((i, seed, f"re-run of violating case failed: {e}"))
             continue
-        if match_known(prop, res.violation.sig, known) is not None:
-            # minimisation drifted into a known finding's signature: report the unminimised case instead
-            mcase, res = case, E.run_case(case)
-        path = write_replay(prop, seed, mcase, res.violation.to_json(), res.digest)
+        if res.violation is None or res.violation.klass != klass:
+            # not reproducible in isolation: does it depend on state left by the runs that preceded it in its batch?
+            if span is not None and span[1] > span[0]:
+                pre = [_case_for(E, spec, prop, tier, verif_seed, j)[1] for j in range(span[0], span[1])]
+                try:
+                    res = forked(run_sequence, ename, pre + [case])
+                except core.HarnessError as e:
+                    res = None
+                    tot["errors"].append((i, seed, f"prelude re-run failed: {e}"))
+                if res is not None and res.violation is not None and res.violation.klass == klass:
+                    # minimise the prelude (ddmin over earlier runs), keeping the same class
+                    holder = {"pre": pre}
+
+                    def run_pre(c, holder=holder):
+                        return forked(run_sequence, ename, c["__pre__"] + [c["__case__"]])
+
+                    wrap = {"__pre__": pre, "__case__": case}
+                    wrap = shrink.ddmin_list(run_pre, wrap, "__pre__", klass, time.time() + spec.get("shrink_s", 25))
+                    prelude = wrap["__pre__"]
+                    res = forked(run_sequence, ename, prelude + [case])
+                    if res.violation is None or res.violation.klass != klass:
+                        prelude = pre
+                        res = forked(run_sequence, ename, prelude + [case])
+                    mcase = case
+                else:
+                    tot["errors"].append((i, seed, f"violation {klass} reproduces neither alone nor after the {len(pre)} runs before it in its batch (determinism defect)"))
+                    continue
+            else:
+                tot["errors"].append((i, seed, f"violation {klass} did not reproduce in a fresh process (determinism defect)"))
+                continue
+        if prelude is None:
+            try:
+                mcase = shrink.minimise(run1, case, klass, getattr(E, "SHRINK_LISTS", []), getattr(E, "simplify", None),
+                                        budget_s=spec.get("shrink_s", 25))
+                res = run1(mcase)
+                if res.violation is None or res.violation.klass != klass:
+                    mcase, res = case, run1(case)
+            except Exception:
+                mcase, res = case, run1(case)
+            if res.violation is None:
+                tot["errors"].append((i, seed, f"violation {klass} vanished during minimisation (determinism defect)"))
+                continue
+            if match_known(prop, res.violation.sig, known) is not None:
+                mcase, res = case, run1(case)  # minimisation drifted into a known finding's signature
+        vj = res.violation.to_json()
+        if prelude:
+            vj["class"] = vj["class"]
+            vj["detail"] = f"[after {len(prelude)} earlier run(s) in the same process] " + vj["detail"]
+        path = write_replay(prop, seed, mcase, vj, res.digest, prelude)
         ok, out = confirm_replay(path)
         if not ok:
             tot["errors"].append((i, seed, f"replay of {path} did not reproduce: {out}"))
             continue
         print(f"VIOLATION property={prop} replay={path}", flush=True)
-        print(f"#   class={res.violation.klass} detail={res.violation.detail}", flush=True)
-        reported.append({"class": res.violation.klass, "detail": res.violation.detail, "replay": path})
+        print(f"#   class={res.violation.klass} detail={vj['detail']}", flush=True)
+        reported.append({"class": res.violation.klass, "detail": vj["detail"], "replay": path, "prelude_runs": len(prelude or [])})
         exit_code = 1
     for kid, n in sorted(known_hits.items()):
         print(f"KNOWN-FINDING: property={prop} {kid}: {known_text[kid]} (hit {n}x this run)", flush=True)
